@@ -126,6 +126,8 @@ func (e *env) runJob(j job) {
 		e.runRevocation(j)
 	case "race":
 		e.runRevocationRace(j)
+	case "double":
+		e.runDoubleRevocation(j)
 	case "whip":
 		e.runWhip(j)
 	case "random":
@@ -275,6 +277,7 @@ func main() {
 		run.FloorCounter("cross_group_list_checked", 1)
 		run.FloorCounter("revocations_acknowledged", 1)
 		run.FloorCounter("refused_after_revocation", 1)
+		run.FloorCounter("refused_after_double_revocation", 1)
 		run.FloorCounter("streams_closed_on_unpresent", 1)
 		run.FloorCounter("random_steps_judged", 50)
 	}
@@ -313,6 +316,9 @@ func plan(run *vk.Run) []batchArgs {
 	}
 	for i := 0; i < run.Pick(60, 10000); i++ {
 		safe = append(safe, job{T: "race", I: next()})
+	}
+	for i := 0; i < run.Pick(36, 3000); i++ {
+		safe = append(safe, job{T: "double", I: next()})
 	}
 	for i := 0; i < run.Pick(40, 4000); i++ {
 		safe = append(safe, job{T: "whip", I: next()})
